@@ -29,6 +29,8 @@ func init() {
 			{ID: "C03.3", Doc: "stalled armed only when nothing is in flight and nothing qualifies", Floor: 2, Run: c03r3},
 			{ID: "C03.4", Doc: "Stop completes", Floor: 5, Run: c03r4},
 			{ID: "C03.5", Doc: "who may be left unqueried at stall", Floor: 4, Run: c03r5},
+			{ID: "C03.9", Doc: "an address is marked as queried only when its query is started: every insertion into the queried set is followed, on every path, by the start of the query goroutine", Floor: 1, Run: c03r9},
+			{ID: "C03.8", Doc: "the run loop goes to sleep only after re-testing whether another query can be started: between starting a query and the wait it always re-evaluates outstanding < Alpha", Floor: 1, Run: c03r8},
 			{ID: "C03.7", Doc: "the frontier's order is total on distinct contacts, so no learned contact is dropped as a duplicate of another (shared with C18.3)", Floor: 4, Run: c18r3},
 			{ID: "C03.6", Doc: "no address is queried twice (finiteness of the query sequence; shared with C04.3)", Floor: 3, Run: c04r3},
 		},
@@ -668,4 +670,157 @@ func anySub(t *Term, pred func(*Term) bool) bool {
 		return !found
 	})
 	return found
+}
+
+// c03r8: progress. A lookup that has a free slot and a candidate must start a query rather than
+// wait: every path from a startQuery call to the blocking wait of the run loop passes the test of
+// outstanding < Alpha again (slots are counted by the state, not by a number computed before the
+// loop - a skipped duplicate address does not use one up).
+func c03r8(w *World, rr *RuleRun) {
+	t := w.trav()
+	w.LK.Run()
+	run := w.P.Func("(*traversal.Operation).run")
+	sq := w.P.Func("(*traversal.Operation).startQuery")
+	var wait ssa.Instruction
+	var guards []ssa.Instruction
+	eachInstr([]*ssa.Function{run}, func(_ *ssa.Function, ins ssa.Instruction) {
+		if sel, ok := ins.(*ssa.Select); ok && sel.Blocking {
+			wait = ins
+		}
+		if iff, ok := ins.(*ssa.If); ok {
+			for _, at := range w.FE.decompose(w.TS.Of(iff.Cond), true) {
+				if at.term != nil && at.term.Op == OpBin && at.term.Name == "<" && isFieldTerm(at.term.Args[0], t.outstanding) && isFieldTerm(at.term.Args[1], t.alpha) {
+					guards = append(guards, ins)
+				}
+			}
+		}
+	})
+	if wait == nil {
+		rr.Broken("the run loop has no blocking wait")
+		return
+	}
+	sites := w.CallsIn(run, sq, false)
+	if len(sites) == 0 {
+		rr.Oblige(shortFuncName(run), "the run loop starts queries", w.P.Pos(run.Pos()), false, "no startQuery call")
+	}
+	for _, s := range sites {
+		ok := len(guards) > 0
+		det := "no test of outstanding < Alpha in the run loop"
+		if ok {
+			// can the wait be reached from just after the call while avoiding every guard?
+			reach := reachAvoidingAll(s.Block(), instrIndex(s)+1, wait, guards)
+			ok = !reach
+			det = ""
+			if reach {
+				det = "the wait is reachable from this startQuery call without re-testing outstanding < Alpha: free slots are not re-counted from the state"
+			}
+		}
+		rr.At(w, s, "after starting a query the loop re-tests outstanding < Alpha before it can wait", ok, det)
+	}
+}
+
+func reachAvoidingAll(blk *ssa.BasicBlock, idx int, target ssa.Instruction, avoid []ssa.Instruction) bool {
+	av := map[ssa.Instruction]bool{}
+	for _, a := range avoid {
+		av[a] = true
+	}
+	seen := map[*ssa.BasicBlock]bool{}
+	found := false
+	var walk func(b *ssa.BasicBlock, from int)
+	walk = func(b *ssa.BasicBlock, from int) {
+		if found {
+			return
+		}
+		for i := from; i < len(b.Instrs); i++ {
+			if b.Instrs[i] == target {
+				found = true
+				return
+			}
+			if av[b.Instrs[i]] {
+				return
+			}
+		}
+		for _, s := range b.Succs {
+			if !seen[s] {
+				seen[s] = true
+				walk(s, 0)
+			}
+		}
+	}
+	walk(blk, idx)
+	return found
+}
+
+// c03r9: "every contact it has learned that passes the node filter has been queried": the queried
+// set is what keeps a contact from being queried (again), so nothing may enter it except on the
+// way to its query - not a contact the filter rejected under another ID, not a skipped duplicate.
+func c03r9(w *World, rr *RuleRun) {
+	t := w.trav()
+	n := 0
+	eachInstr(w.P.LibFuncs, func(fn *ssa.Function, ins ssa.Instruction) {
+		mu, ok := ins.(*ssa.MapUpdate)
+		if !ok || fieldOfAddr(mu.Map) != t.queried {
+			return
+		}
+		n++
+		// lift through single-site synchronous helpers (markQueried) to the function that goes on to query
+		var at ssa.Instruction = ins
+		okAll := true
+		det := ""
+		for depth := 0; depth < 3; depth++ {
+			f := at.Parent()
+			isQueryGo := func(i ssa.Instruction) bool {
+				g, isGo := i.(*ssa.Go)
+				if !isGo {
+					return false
+				}
+				for _, e := range w.CG.SiteOut[g] {
+					for _, dq := range w.doQuerySites(t) {
+						if dq.Parent() == e.Callee || w.liftSyncHelper(dq.Parent()) == e.Callee {
+							return true
+						}
+					}
+				}
+				return false
+			}
+			hasGo := false
+			eachInstr([]*ssa.Function{f}, func(_ *ssa.Function, i2 ssa.Instruction) {
+				if isQueryGo(i2) {
+					hasGo = true
+				}
+			})
+			if hasGo {
+				ok, wit := MustPass(at, isQueryGo)
+				okAll = ok
+				if wit != nil {
+					det = "the function can return at " + w.P.InstrPos(wit) + " with the address marked but no query started"
+				}
+				break
+			}
+			// continue at the only call site
+			var es []*Edge
+			for _, e := range w.CG.CallersOf(enclosingNamed(f)) {
+				if !e.Callback && w.P.IsLib(e.Caller) {
+					es = append(es, e)
+				}
+			}
+			if f.Parent() != nil || len(es) == 0 {
+				okAll, det = false, "marked in "+shortFuncName(f)+", which never starts a query"
+				break
+			}
+			// every call site must lead to the query
+			if len(es) > 1 {
+				okAll, det = false, fmt.Sprintf("%s has %d call sites; each would have to start a query", shortFuncName(f), len(es))
+				for _, e := range es {
+					_ = e
+				}
+				break
+			}
+			at = es[0].Site
+		}
+		rr.At(w, ins, "marking an address as queried is followed by the start of its query", okAll, det)
+	})
+	if n == 0 {
+		rr.Oblige("traversal", "marking an address as queried is followed by the start of its query", "-", false, "no insertion into the queried set")
+	}
 }
